@@ -1,5 +1,5 @@
 ENGINES = [
-    dict(name="pyvc", path="pyvc/", serves_properties=["C17", "C14", "C02", "C01", "C10", "C11", "C16", "C19"],
+    dict(name="pyvc", path="pyvc/", serves_properties=["C17", "C14", "C02", "C01", "C10", "C11", "C16", "C19", "C03", "C04", "C05", "C12", "C13", "C20"],
          kind_free_text="E1: AST -> verification-condition generator / symbolic executor over the real source text of /repo, sidecar contracts, z3 (cvc5 fall-back)"),
     dict(name="tabinv", path="tabinv/", serves_properties=["C01", "C10", "C11"],
          kind_free_text="E2: exact-arithmetic ground obligations on the coefficient tables dumped from the imported classes"),
@@ -68,4 +68,46 @@ CHECKS["C19"] = dict(level="proof", engine="pyvc",
     note="numpy IndexError/argmin/broadcast semantics axiomatised (A3); states modelled as one real per step; Rep invariant is integrate()'s post-condition (C03/C12); A1, A2",
     technique="contracts on the real method, VCs with arrays/quantifiers discharged by z3; callee search_bisection by its C17 contract",
     design_ref="DESIGN.md section 4 C19")
+CHECKS["C03"] = dict(level="proof", engine="pyvc",
+    text="The real OdeSystem.integrate is verified against its contract for an arbitrary pre-state satisfying the representation invariant (hence every sequence of calls): prefix frame, strict monotonicity toward the target, "
+         "no overshoot, end within tol_epsilon of the target, every buffer write in bounds (growth logic), buffers trimmed to counter + 1 -- on normal and exceptional exit, with 0 and with 2 arbitrary callbacks, target given or "
+         "defaulted; the step-sign/size contract of the integrators used at the call site is proved from update_timestep, implicit_aware_update_timestep, RungeKuttaIntegrator.__call__ and ExplicitSymplecticIntegrator.__call__.",
+    note="states are one real per step; finiteness/dtype are bounded native clauses; events and dense output are outside this contract (C06-C09); loop termination not proved (A7); transcendental axioms listed; Richardson wrappers' "
+         "__call__ only through the native family; A1",
+    technique="contract + loop invariant on the real method, callee contracts proved in the same run, VCs (arrays, quantifiers) by z3",
+    design_ref="DESIGN.md section 4 C03")
+CHECKS["C04"] = dict(level="proof", engine="pyvc",
+    text="With a fixed-step integrator contract (dTime == new_dt == timestep, proved for explicit RK and splitting classes) and no callback, integrate() records steps of magnitude exactly H (the requested |dt|, or half the span) "
+         "except possibly the last, none longer, for every (t0, tf); one RK step is shift- and reflection-invariant for autonomous right-hand sides (all explicit tables, LinComb domain); one iteration of integrate()'s loop is "
+         "shift-invariant (relational proof). Implicit fixed-step classes are a recorded known finding (F8).",
+    note="'tolerance level' agreement of shifted adaptive runs is floating-point: bounded native family; A1, A7; transcendental axioms",
+    technique="loop invariant with exact step magnitudes + relational (two-run) symbolic execution",
+    design_ref="DESIGN.md section 4 C04")
+CHECKS["C05"] = dict(level="other", engine="pyvc+monitor",
+    text="Proved for all inputs: the step controller (sign preserved, corr in [1 - pi/4, 1 + pi/2), redo iff corr < 0.81, frame), the implicit-aware wrapper, and RungeKuttaIntegrator.__call__ over its control skeleton: every retry "
+         "after a rejection is strictly smaller and of the same sign, normal return implies the controller accepted (and Newton converged), otherwise FailedToMeetTolerances; integrate() records nothing for a failed step. "
+         "NOT proved: the headline error bound (asymptotic floating-point statement) -- bounded native family only, labelled bounded.",
+    note="level 'other' because the property's first clause is only bounded; arctan / power functions axiomatised; A1",
+    technique="contracts on controller and retry loop discharged by z3; bounded native accuracy family for the error-bound clause",
+    design_ref="DESIGN.md section 4 C05")
+CHECKS["C12"] = dict(level="proof", engine="pyvc",
+    text="The exceptional post-condition of the real integrate() is proved at every raising program point (integrator call, buffer growth, each callback; Exception subclasses and KeyboardInterrupt; also from a pre-state that already "
+         "failed): FailedIntegration with the original cause (KeyboardInterrupt as itself), status is that object, buffers trimmed, prefix untouched, recorded steps monotone and not beyond the target, dt != 0 -- the representation "
+         "invariant integrate() requires, so resumption is C03. RungeKuttaIntegrator.__call__: a non-caught exception from step() escapes from the first attempt and every retry. reset(): C13's obligations.",
+    note="events/dense-output bookkeeping on failure are only in the bounded native fault-injection family (every position k of short runs); swallowed ValueError is a recorded known finding (F26); A1",
+    technique="exceptional post-conditions at raising program points (crash-point enumeration over program points) discharged by z3",
+    design_ref="DESIGN.md section 4 C12")
+CHECKS["C13"] = dict(level="proof", engine="pyvc",
+    text="reset() executed symbolically from an arbitrary run-state establishes the value __init__ gives every run-state attribute (trajectory = initial point, fresh empty DenseOutput, dt = oriented initial step, nfev 0, status 0, "
+         "no events, new integrator built from the current settings), settings untouched; frame completeness of the attribute write set (AST); integrate() at the target changes nothing; y0 cloned, no write through y0/constants, "
+         "no clock/random source (AST scans).",
+    note="split-span agreement 'within tolerance' and bit-for-bit equality with a fresh system are exercised by the bounded native history family; numpy determinism assumed",
+    technique="symbolic execution of reset from a havocked state + syntactic frame obligations",
+    design_ref="DESIGN.md section 4 C13")
+CHECKS["C20"] = dict(level="proof", engine="pyvc",
+    text="DiffRHS.__call__ counts completed calls only; jac counts once and its finite-difference closures are counted; no `.rhs(...)` call bypasses the counted path anywhere in the package (AST); reset zeroes nfev; in integrate() "
+         "every callback is invoked exactly once per iteration, in list order, after the new (t, y) row is recorded and visible, and the step handed to the integrator is the stored dt or the final clamp.",
+    note="terminal-event sub-steps (recursive integrate without callbacks) are covered with C09's event contract only natively; torch paths cut (A5)",
+    technique="ghost call logs in the symbolic execution of integrate + state-machine contracts of DiffRHS + package-wide AST frame scan",
+    design_ref="DESIGN.md section 4 C20")
 NOT_APPLICABLE = {}
